@@ -79,18 +79,35 @@ Definition C27_rejected_invisible_full : Prop :=
   forall verr fin g hist,
     vmain (vrun verr fin g hist) = vmain (vrun verr fin g (filter (valid_item verr) hist)).
 
-(** witness (no reorganisation, no equal hashes): the children 3 (invalid) and
-    2 (valid) of block 1 wait in the orphan pool; when 1 arrives ProcessOrphans
-    stops at 3 and block 2 stays an orphan *)
+(** witness: the history of 1 — without the rejected block 21 the chain stays
+    on the trunk (tip 13), with it the chain ends on 20.  (A second witness is
+    the poisoning history of 2.  The orphan-pool witness of the unrepaired
+    ProcessOrphans — invalid and valid children of block 1 waiting for it — is
+    no witness any more: see [orphan_history_invisible] and the theorem
+    C27_rejected_invisible_partial.) *)
+Lemma rejected_invisible_refuted : ~ C27_rejected_invisible_full.
+Proof.
+  intro H. specialize (H w_verr 0 w_root (w_trunk ++ [w_side12; w_bad13])). vm_compute in H. discriminate H.
+Qed.
+
+Lemma rejected_invisible_refuted_by_poison :
+  vmain (vrun p_verr 0 p_root [mkI p_b1 1 PBcast; mkI p_b1 0 PSync])
+  <> vmain (vrun p_verr 0 p_root (filter (valid_item p_verr) [mkI p_b1 1 PBcast; mkI p_b1 0 PSync])).
+Proof. vm_compute. discriminate. Qed.
+
+(** the children 3 (invalid) and 2 (valid) of block 1 wait in the orphan pool;
+    when 1 arrives ProcessOrphans drops 3 and connects 2 *)
 Definition o_root : block := mkB 0 999 0 1.
 Definition o_hist : list item :=
   [mkI (mkB 3 1 2 1) 0 PBcast; mkI (mkB 2 1 2 1) 0 PBcast; mkI (mkB 1 0 1 1) 0 PBcast].
 Definition o_verr (h b : N) : N := if N.eqb h 3 then 5%N else 0%N.
 
-Lemma rejected_invisible_refuted : ~ C27_rejected_invisible_full.
-Proof.
-  intro H. specialize (H o_verr 0 o_root o_hist). vm_compute in H. discriminate H.
-Qed.
+Lemma orphan_history_invisible :
+  vmain (vrun o_verr 0 o_root o_hist) = [2; 1; 0]%N
+  /\ vmain (vrun o_verr 0 o_root (filter (valid_item o_verr) o_hist)) = [2; 1; 0]%N
+  /\ vorph (vrun o_verr 0 o_root o_hist) = []
+  /\ snd (vdeliver o_verr 0 (vrun o_verr 0 o_root (firstn 2 o_hist)) (mkI (mkB 1 0 1 1) 0 PBcast)) = (true, false, VNone).
+Proof. vm_compute. repeat split. Qed.
 
 (** ---- 4. ProcessBlock does not panic ---- *)
 Definition C27_no_panic_full : Prop :=
